@@ -199,8 +199,8 @@ FAMILIES = {
     "tls": (["tls_get", "tls_set", "tls_set", "yield", "lock", "unlock", "load", "store"], dict(nmutex=1, natom=1)),
     "statics": (["lz_fadd", "lz_fadd", "lz_load", "sonce", "sonce", "sonce_done", "load", "store"], dict(natom=1)),
     "ident": (["tid", "name", "me", "yield", "load", "store"], dict(natom=1)),
-    "sem_unfair": (["acquire", "try_acquire", "release", "release", "yield"], dict(nsem=1)),
-    "sem_fair": (["acquire", "try_acquire", "release", "release", "yield"], dict(nsem=1)),
+    "sem_unfair": (["acquire", "acquire", "try_acquire", "release", "release", "yield", "fadd", "load"], dict(nsem=1, natom=1)),
+    "sem_fair": (["acquire", "acquire", "try_acquire", "release", "release", "yield", "fadd", "load"], dict(nsem=1, natom=1)),
     # with state observers that are not scheduling points (trace validation only)
     "sem_unfair_obs": (["acquire", "try_acquire", "release", "release", "avail", "close", "is_closed"], dict(nsem=1)),
     "sem_fair_obs": (["acquire", "try_acquire", "release", "release", "avail", "close", "is_closed"], dict(nsem=1)),
